@@ -98,7 +98,9 @@ def run(ctx):
     with ctx.obligation("C07.3", "admissible splits: recursion premises", floor=5) as o:
         gv = prog.method(sd, "get_valid_joint_degrees")
         rem, top = gv.params[1], gv.params[2]
-        body = astx.strip_logging(gv.body)
+        from gcmstatic.normalize import _structure_returns
+        # `if base: yield ..; return` followed by the recursive case is the same as if/else
+        body = _structure_returns(astx.strip_logging(gv.body))
         if len(body) != 1 or not isinstance(body[0], ast.If):
             o.undecided("get_valid_joint_degrees is not `if topology == 1: ... else: ...`", gv)
         else:
@@ -128,8 +130,9 @@ def run(ctx):
                     if b is None:
                         o.undecided(f"loop domain `{txt(lp.iter)}` not recognised", gv, lp)
                     else:
-                        lo = rules.term_of(b["lo"]) if "lo" in b else tm.ZERO
-                        hi = rules.term_of(b["hi"])
+                        gsc = Scope(gv.node)
+                        lo = rules.term_of(b["lo"], gsc) if "lo" in b else tm.ZERO
+                        hi = rules.term_of(b["hi"], gsc)
                         want_hi = tm.parse(f"{rem} // {top} + 1")
                         if lo == tm.ZERO and hi == want_hi:
                             o.holds(gv, lp, f"{i} ranges over 0 .. {rem} // {top}")
@@ -142,7 +145,7 @@ def run(ctx):
                         o.undecided("recursive call / yield not recognised", gv, lp)
                     else:
                         c = calls[0]
-                        a0, a1 = rules.term_of(c.args[0]), rules.term_of(c.args[1])
+                        a0, a1 = rules.term_of(c.args[0], Scope(gv.node)), rules.term_of(c.args[1], Scope(gv.node))
                         if a0 == tm.parse(f"{rem} - {i} * {top}") and a1 == tm.parse(f"{top} - 1"):
                             o.holds(gv, c, f"recurses on ({rem} - {i}*{top}, {top} - 1)")
                         else:
@@ -182,9 +185,9 @@ def run(ctx):
                 o.holds(cj, calls[0], f"resolve_degree({k}, self._fp({k}))")
             else:
                 o.violated(cj, calls[0], f"resolve_degree({', '.join(args)}): the split of degree {k} must be weighted by the degree function at the same {k}")
-            b = match(pat("range(self._low_high_degree_bound[0], self._low_high_degree_bound[1])"), lp.iter)
+            b = match(pat("range(self._low_high_degree_bound[0], self._low_high_degree_bound[1])"), Scope(cj.node).resolve(lp.iter))
             if b is None:
-                t = txt(lp.iter)
+                t = txt(Scope(cj.node).resolve(lp.iter))
                 if "self._low_high_degree_bound" in t:
                     o.violated(cj, lp, f"k ranges over `{t}`, not over the configured degree range")
                 else:
